@@ -100,6 +100,28 @@ func (c *client) PushBlob(ctx context.Context, repo string, desc ociregistry.Des
 		}
 		r = nil
 	}
+	if desc.Size > 0 && r != nil {
+		// Make sure that content that's longer than the descriptor says
+		// is refused before the request body is complete: otherwise
+		// net/http notices only after it has sent desc.Size bytes,
+		// which the registry then stores if the digest happens to match them.
+		switch r1 := r.(type) {
+		case *bytes.Reader:
+			if int64(r1.Len()) != desc.Size {
+				return ociregistry.Descriptor{}, fmt.Errorf("blob content has %d bytes but descriptor size is %d: %w", r1.Len(), desc.Size, ociregistry.ErrSizeInvalid)
+			}
+		case *bytes.Buffer:
+			if int64(r1.Len()) != desc.Size {
+				return ociregistry.Descriptor{}, fmt.Errorf("blob content has %d bytes but descriptor size is %d: %w", r1.Len(), desc.Size, ociregistry.ErrSizeInvalid)
+			}
+		case *strings.Reader:
+			if int64(r1.Len()) != desc.Size {
+				return ociregistry.Descriptor{}, fmt.Errorf("blob content has %d bytes but descriptor size is %d: %w", r1.Len(), desc.Size, ociregistry.ErrSizeInvalid)
+			}
+		default:
+			r = &exactSizeReader{r: r, size: desc.Size}
+		}
+	}
 	// TODO use the single-post blob-upload method (ReqBlobUploadBlob)
 	// See:
 	//	https://github.com/distribution/distribution/issues/4065
@@ -150,6 +172,51 @@ func (c *client) PushBlob(ctx context.Context, repo string, desc ociregistry.Des
 	defer closeOnError(&_err, resp.Body)
 	resp.Body.Close()
 	return desc, nil
+}
+
+// exactSizeReader reads content that's expected to be exactly size (> 0)
+// bytes long from r. The last byte is held back until it's known that
+// nothing follows it, so that content of another length never reads as
+// size bytes followed by an error.
+type exactSizeReader struct {
+	r    io.Reader
+	size int64
+	n    int64 // number of bytes delivered so far
+}
+
+func (r *exactSizeReader) Read(buf []byte) (int, error) {
+	if r.n >= r.size {
+		return 0, io.EOF
+	}
+	if len(buf) == 0 {
+		return 0, nil
+	}
+	if rest := r.size - 1 - r.n; rest > 0 {
+		// Everything but the last byte can be passed on as it comes.
+		if int64(len(buf)) > rest {
+			buf = buf[:rest]
+		}
+		n, err := r.r.Read(buf)
+		r.n += int64(n)
+		if err == io.EOF {
+			err = fmt.Errorf("blob content has %d bytes but descriptor size is %d: %w", r.n, r.size, ociregistry.ErrSizeInvalid)
+		}
+		return n, err
+	}
+	// The last byte: look one byte further.
+	var last [2]byte
+	n, err := io.ReadFull(r.r, last[:])
+	switch {
+	case n == 1 && (err == io.ErrUnexpectedEOF || err == io.EOF):
+		buf[0] = last[0]
+		r.n++
+		return 1, nil
+	case n == 0 && err == io.EOF:
+		return 0, fmt.Errorf("blob content has %d bytes but descriptor size is %d: %w", r.n, r.size, ociregistry.ErrSizeInvalid)
+	case err == nil:
+		return 0, fmt.Errorf("blob content has more bytes than the descriptor size %d: %w", r.size, ociregistry.ErrSizeInvalid)
+	}
+	return 0, err
 }
 
 // TODO is this a reasonable default? We have to
